@@ -137,6 +137,17 @@ TABLE: list[tuple[str, str, bool, str, list[F]]] = [
     ("Typed", "Expr", False, "", [F("ty", "str", "prop", "str", '""')]),
     ("Lit", "Typed, Located", False, "", [F("v", "str", "prop", "str", '""')]),
     ("Both", "Typed, Located", False, "", []),
+    # a user __post_init__ that itself constructs nodes (before and after the library's part) and keeps them
+    (
+        "Hook",
+        "Expr",
+        False,
+        "    def __post_init__(self) -> None:\n"
+        "        HOOK_SINK.append(LeafA(a='h:' + self.name))\n"
+        "        ASTNode.__post_init__(self)\n"
+        "        HOOK_SINK.append(LeafB(a='h:' + self.name))\n",
+        [F("name", "str", "prop", "str")],
+    ),
     (
         "Boom",
         "Expr",
@@ -165,6 +176,7 @@ from simkit.core import FAULTS
 
 import itertools
 _SERIAL = itertools.count(100)
+HOOK_SINK: list = []  # nodes made by user callbacks (Hook.__post_init__); the harness adopts them after each step
 
 
 def _next_serial() -> int:
@@ -299,7 +311,7 @@ CHILD_FIELDS: dict[str, list[F]] = _Tab({n: [f for f in fs if f.kind != "prop"] 
 PROP_FIELDS: dict[str, list[F]] = _Tab({n: [f for f in fs if f.kind == "prop"] for n, fs in FIELDS.items()})
 
 NODE_CLASSES = [n for n in _OWN if n != "Expr"]
-LEAF_CLASSES = ["LeafA", "LeafB", "LeafA2", "Meta", "Vals", "FS", "Carrier", "Serial", "Upper", "Lit", "Located", "Typed", "Dyn", "CaseMix", "Both", "FS2", "EnumBag", "AnyBox", "LocalLeaf"]
+LEAF_CLASSES = ["LeafA", "LeafB", "LeafA2", "Meta", "Vals", "FS", "Carrier", "Serial", "Upper", "Lit", "Located", "Typed", "Dyn", "CaseMix", "Both", "FS2", "EnumBag", "AnyBox", "LocalLeaf", "Hook"]
 INNER_CLASSES = ["Pair", "Seq", "Fixed", "Mixed", "Falsy", "SeqPlus", "Loop", "IterBlock", "IterBlock2", "Deco"]
 
 def redefine_dyn(keep: bool = False):
